@@ -802,13 +802,27 @@ pub fn cpu_view_mismatch(m: &Machine, a: &Abs, exempt: &[u16]) -> Option<(u16, u
     None
 }
 
+/// The file reaches the loader through a whole-buffer asset or one whose reads return at most 1, 7,
+/// 512 or 4096 bytes (the asset contract allows short reads); which one is a function of the file, so
+/// that a case is reproducible.
+fn snapshot_asset(bytes: &[u8]) -> crate::host::DynAsset {
+    let mut h = crate::rng::FNV_INIT;
+    crate::rng::fnv1a(&mut h, &bytes[..bytes.len().min(4096)]);
+    match h % 7 {
+        0 => crate::host::DynAsset(Box::new(crate::host::ShortRead::new(bytes.to_vec(), 1))),
+        1 => crate::host::DynAsset(Box::new(crate::host::ShortRead::new(bytes.to_vec(), 7))),
+        2 => crate::host::DynAsset(Box::new(crate::host::ShortRead::new(bytes.to_vec(), 512))),
+        3 => crate::host::DynAsset(Box::new(crate::host::ShortRead::new(bytes.to_vec(), 4096))),
+        _ => mem_asset(bytes.to_vec()),
+    }
+}
 pub fn load_sna(m: &mut Machine, bytes: &[u8]) -> Result<Result<(), String>, String> {
-    let b = bytes.to_vec();
-    crate::host::catch(|| m.emu.load_snapshot(Snapshot::Sna(mem_asset(b))).map_err(|e| format!("{:?}", e)))
+    let a = snapshot_asset(bytes);
+    crate::host::catch(|| m.emu.load_snapshot(Snapshot::Sna(a)).map_err(|e| format!("{:?}", e)))
 }
 pub fn load_szx(m: &mut Machine, bytes: &[u8]) -> Result<Result<(), String>, String> {
-    let b = bytes.to_vec();
-    crate::host::catch(|| m.emu.load_snapshot(Snapshot::Szx(mem_asset(b))).map_err(|e| format!("{:?}", e)))
+    let a = snapshot_asset(bytes);
+    crate::host::catch(|| m.emu.load_snapshot(Snapshot::Szx(a)).map_err(|e| format!("{:?}", e)))
 }
 
 pub fn diffs_json(d: &[Diff]) -> crate::json::J {
